@@ -24,3 +24,16 @@ claim('C08',
       'decision tables of the eight comparison operators, max/min bias and cmp_nint_f64, mirrored (Float,Int)/(Int,Float) arms, '
       'incomparable => error, stable sort, infinities separated before partial exact conversions.',
       'forbidden-callee reachability over the resolved call graph + finite decision tables from MIR')
+claim('C09',
+      'Decides the Eq/Hash coherence discipline of dictionary keys structurally, not operation histories: canonical hashing '
+      'sinks per numeric level (integral values through the integer hash, non-integral rationals and floats through one shared '
+      'exact-fraction hash, imaginary part only when non-zero), NaN as one constant, matching element functions and kinds in key '
+      'equality and key hashing, an order-independent per-entry combiner for nested dicts, and key construction confined to the '
+      'validating to_key.',
+      'sink/callee discipline over MIR arms + CFG cycle and dominance queries')
+claim('C11',
+      'Decides structural clauses, not closed forms over values: for every impl Stream the len/force overrides agree with whether '
+      'next can end; observation methods take &self and iterate a clone_box() copy while Rc<dyn Stream> holders advance only through '
+      'Rc::get_mut; every peek()-guarded loop makes progress; Range::len is sign-symmetric as a symbolic linear form with clamped '
+      'numerators and Range::empty compares in the direction of the step; infinite streams declare it and len maps that to inf.',
+      'per-impl decision table from MIR return origins + CFG progress queries + symbolic linear forms')
